@@ -110,24 +110,45 @@ Qed.
 Print Assumptions siblings_untouched.
 
 (* Call frames (core/vm/evm.go: snapshot at entry, RevertToSnapshot on error): a frame is a mutator
-   or a call with a body of frames; [exec] threads a flag that stays true while every operation is a
-   benign mutator.  A failing call, at any nesting depth and whatever its sub-calls did (succeed or
-   fail), leaves accounts, refund, logs, preimages, access list, transient storage, journal and
-   validRevisions exactly as at its entry.  FULL STATEMENT = the same without the flag: refuted by
-   [revert_restores_refuted] (body = one SELFDESTRUCT of an account with a non-zero size counter). *)
-Theorem failed_frame_leaves_no_trace_partial : forall y body,
-  Inv y -> snd (exec code_fx (FCall body true) (y, true)) = true ->
-  let y' := fst (exec code_fx (FCall body true) (y, true)) in
+   or a call/creation with a body of frames and an ending; [exec] threads a flag that stays true while
+   every operation is a benign mutator.  A frame whose ending makes the EVM revert, at any nesting depth
+   and whatever its sub-frames did, leaves accounts, refund, logs, preimages, access list, transient
+   storage, journal and validRevisions exactly as at its entry.
+   FULL STATEMENT = the same for every ending with [ending_failed e = true] and without the flag:
+   refuted by [revert_restores_refuted] (SELFDESTRUCT of an account with a non-zero size counter) and by
+   [failed_creation_leaves_no_trace_refuted] (code-store out of gas). *)
+Theorem failed_frame_leaves_no_trace_partial : forall y body e,
+  ending_reverts code_create_oog_reverts e = true ->
+  Inv y -> snd (exec code_fx code_create_oog_reverts (FCall body e) (y, true)) = true ->
+  let y' := fst (exec code_fx code_create_oog_reverts (FCall body e) (y, true)) in
   m_core (s_m y') = m_core (s_m y) /\ m_jr (s_m y') = m_jr (s_m y) /\ s_revs y' = s_revs y /\ Inv y'.
-Proof. exact (failed_frame_restores code_fx). Qed.
+Proof. intros y body e. exact (failed_frame_restores code_fx code_create_oog_reverts y body e). Qed.
 Print Assumptions failed_frame_leaves_no_trace_partial.
 
-(* A successful call keeps whatever its body did, and the anchoring of every enclosing frame:
-   any frame preserves the invariant, so the theorem above applies again to the caller. *)
+(* EVM.create exempts ErrCodeStoreOutOfGas from the revert: a creation that fails in the code deposit
+   keeps the new account (nonce 1, endowment) and everything its init code did. *)
+Theorem failed_creation_leaves_no_trace_refuted : exists y body,
+  Inv y /\ ending_failed EndCodeStoreOOG = true /\
+  snd (exec false false (FCall body EndCodeStoreOOG) (y, true)) = true /\
+  m_core (s_m (fst (exec false false (FCall body EndCodeStoreOOG) (y, true)))) <> m_core (s_m y).
+Proof.
+  exists f8_state, [FOp (OCreateAccount [17%N]); FOp (OSetNonce [17%N] 1); FOp (OSetState [17%N] [1%N] 7%N)].
+  split; [apply Inv_fresh; apply wf_coreb_WFc; vm_compute; reflexivity|].
+  vm_compute. repeat split; try reflexivity. intros H. discriminate H.
+Qed.
+Print Assumptions failed_creation_leaves_no_trace_refuted.
+
+(* with upstream's behaviour (revert on every error) every failed ending is covered by the theorem *)
+Theorem every_failed_ending_reverts_with_fix : forall e, ending_failed e = true -> ending_reverts true e = true.
+Proof. intros [] H; try reflexivity; discriminate H. Qed.
+Print Assumptions every_failed_ending_reverts_with_fix.
+
+(* Any frame preserves the invariant, so the theorem above applies again to the caller. *)
 Theorem frames_preserve_invariant : forall f y b,
-  Inv y -> snd (exec code_fx f (y, b)) = true ->
-  Inv (fst (exec code_fx f (y, b))) /\ (s_next y <= s_next (fst (exec code_fx f (y, b))))%N.
-Proof. intros f y b I H. destruct (exec_ok code_fx f y b I H) as (I' & N' & _). split; assumption. Qed.
+  Inv y -> snd (exec code_fx code_create_oog_reverts f (y, b)) = true ->
+  Inv (fst (exec code_fx code_create_oog_reverts f (y, b))) /\
+  (s_next y <= s_next (fst (exec code_fx code_create_oog_reverts f (y, b))))%N.
+Proof. intros f y b I H. destruct (exec_ok code_fx code_create_oog_reverts f y b I H) as (I' & N' & _). split; assumption. Qed.
 Print Assumptions frames_preserve_invariant.
 
 (* RevertToSnapshot of a valid revision never panics (no missing object is dereferenced by any
@@ -306,14 +327,15 @@ Proof. vm_compute. auto. Qed.
 (* a call tree: a failing call containing a failing and a successful sub-call *)
 Definition nv_tree : list frame :=
   [FOp (OAddBalance [17%N] 5);
-   FCall [FOp (OSetState [16%N] [1%N] 0%N); FCall [FOp (OSetNonce [16%N] 9)] true; FOp (OAddLog 1)] false;
-   FCall [FOp (OCreateAccount [16%N]); FOp (OSetTransient [16%N] [1%N] 2%N)] true;
+   FCall [FOp (OSetState [16%N] [1%N] 0%N); FCall [FOp (OSetNonce [16%N] 9)] EndFail; FOp (OAddLog 1)] EndOk;
+   FCall [FOp (OCreateAccount [16%N]); FOp (OSetTransient [16%N] [1%N] 2%N)] EndFail;
    FOp (OALSlot [17%N] [3%N])].
 
 Example failed_frame_nonvacuous :
-  snd (exec code_fx (FCall nv_tree true) (f8_state, true)) = true /\
-  s_next (fst (exec code_fx (FCall nv_tree true) (f8_state, true))) = 4%N /\
-  length (m_jr (s_m (fst (fold_left (fun acc g => exec code_fx g acc) nv_tree (fst (step code_fx f8_state OSnapshot), true))))) = 6.
+  ending_reverts code_create_oog_reverts EndFail = true /\
+  snd (exec code_fx code_create_oog_reverts (FCall nv_tree EndFail) (f8_state, true)) = true /\
+  s_next (fst (exec code_fx code_create_oog_reverts (FCall nv_tree EndFail) (f8_state, true))) = 4%N /\
+  length (m_jr (s_m (fst (fold_left (fun acc g => exec code_fx code_create_oog_reverts g acc) nv_tree (fst (step code_fx f8_state OSnapshot), true))))) = 6.
 Proof. vm_compute. auto. Qed.
 
 Example evm_nonvacuous :
